@@ -28,10 +28,21 @@ pub open spec fn rc_subst(o: v1::RemovedConstraint, n: v1::RemovedConstraint, re
 }
 '''
 
+SUBST_SPEC += '''// observation: the term iterator and the operators assert that Quadratic COO arrays have equal lengths; every function of the instance is well-formed in that sense
+pub open spec fn ofn_coo_ok(o: Option<v1::Function>) -> bool { match o { Some(f) => fn_coo_ok(f), None => true } }
+pub open spec fn inst_coo_ok(i: v1::Instance) -> bool {
+    &&& ofn_coo_ok(i.objective)
+    &&& forall|j: int| 0 <= j < i.constraints.len() ==> ofn_coo_ok((#[trigger] i.constraints[j]).function)
+    &&& forall|j: int| 0 <= j < i.removed_constraints.len() ==> ((#[trigger] i.removed_constraints[j]).constraint is Some ==> ofn_coo_ok(i.removed_constraints[j].constraint->Some_0.function))
+    &&& forall|k: u64| #[trigger] i.decision_variable_dependency@.contains_key(k) ==> fn_coo_ok(i.decision_variable_dependency@[k])
+}
+'''
+
 SUBST_STUBS = '''// `for (_id, f) in map.iter_mut() { *f = f.substitute(&replacement)?; }` : HashMap::iter_mut has no specification in vstd; the loop is a helper whose
 // contract is the loop's meaning (every value replaced by its substitution, same keys; an error of any call is propagated)
 #[verifier::external_body] pub fn substitute_all_values(map: &mut HashMap<u64, Function>, replacement: &HashMap<u64, Function>) -> (r: Result<(), VErr>)
-    requires forall|k: u64| #[trigger] replacement@.contains_key(k) ==> replacement@[k].function is Some,
+    requires forall|k: u64| #[trigger] replacement@.contains_key(k) ==> replacement@[k].function is Some && fn_coo_ok(replacement@[k]),
+        forall|k: u64| #[trigger] old(map)@.contains_key(k) ==> fn_coo_ok(old(map)@[k]),
     ensures r is Ok ==> (forall|k: u64| #[trigger] final(map)@.contains_key(k) <==> old(map)@.contains_key(k))
         && (forall|k: u64| old(map)@.contains_key(k) ==> subst_post(old(map)@[k], replacement@, #[trigger] final(map)@[k]))
 { unimplemented!() }
@@ -49,8 +60,9 @@ def instance_substitute():
                 sig='pub fn substitute(&mut self, replacement: HashMap<u64, Function>) -> Result<()>', wrap=('impl Instance {', '}'),
                 header='''#[verifier::loop_isolation(false)]
 pub fn substitute(&mut self, replacement: HashMap<u64, Function>) -> (r: Result<(), VErr>)
-    // observation: the Function operators panic on an unset oneof
-    requires forall|k: u64| #[trigger] replacement@.contains_key(k) ==> replacement@[k].function is Some,
+    // observation: the Function operators panic on an unset oneof, and (with the term iterator) on Quadratic COO arrays of different lengths
+    requires forall|k: u64| #[trigger] replacement@.contains_key(k) ==> replacement@[k].function is Some && fn_coo_ok(replacement@[k]),
+        inst_coo_ok(*old(self)),
     ensures r is Ok ==> ({
         let o = *old(self); let n = *final(self); let rep = replacement@;
         // objective, every active and every removed constraint: the function is replaced by its substitution, everything else is kept
@@ -88,6 +100,7 @@ pub fn substitute(&mut self, replacement: HashMap<u64, Function>) -> (r: Result<
 FN_SUBST_STUBS = '''// ---- assumed callee contracts of Function::substitute (T5) ----
 // term iterator of &Function (Box<dyn Iterator>: outside the dialect): the enumerated (ids, coefficient) list is a function of the message, its terms sum to the polynomial
 #[verifier::external_body] pub fn function_terms(f: &Function) -> (r: Vec<(SortedIds, F64)>)
+    requires fn_coo_ok(*f)      // IntoIterator for &Quadratic asserts equal COO lengths
     ensures r@ == fn_terms(*f)     // value and finiteness of the list: axioms ax_fn_terms / ax_fn_terms_fin in spec/substitute_spec.rs
 { unimplemented!() }
 // SortedIds derefs to [u64]: `.iter()` enumerates the ids in order
@@ -104,9 +117,9 @@ impl Linear {
         ensures r.terms@.len() == 1, r.terms@[0].id == id, r.terms@[0].coefficient == coefficient, r.constant@ == XR::Fin(0real) { unimplemented!() }
 }
 // Function * Linear (impl_mul_from!(Function, Linear, Function), verified in C02): the product with the upcast operand
-impl MulSpecImpl<Linear> for Function { open spec fn obeys_mul_spec() -> bool { false } open spec fn mul_req(self, rhs: Linear) -> bool { self.function is Some } open spec fn mul_spec(self, rhs: Linear) -> Function { arbitrary() } }
+impl MulSpecImpl<Linear> for Function { open spec fn obeys_mul_spec() -> bool { false } open spec fn mul_req(self, rhs: Linear) -> bool { self.function is Some && fn_coo_ok(self) } open spec fn mul_spec(self, rhs: Linear) -> Function { arbitrary() } }
 impl core::ops::Mul<Linear> for Function { type Output = Function;
-    #[verifier::external_body] fn mul(self, rhs: Linear) -> (r: Function) ensures r == fn_mul(self, fn_of_linear(rhs)), is_prod(r, self, fn_of_linear(rhs)) { unimplemented!() } }
+    #[verifier::external_body] fn mul(self, rhs: Linear) -> (r: Function) ensures r == fn_mul(self, fn_of_linear(rhs)), is_prod(r, self, fn_of_linear(rhs)), fn_coo_ok(r) { unimplemented!() } }
 '''
 
 
@@ -116,7 +129,9 @@ def function_substitute():
                 header='''#[verifier::loop_isolation(false)]
 pub fn substitute(&self, replacements: &HashMap<u64, Self>) -> (r: Result<Self, VErr>)
     // observation: the operators panic on an unset oneof
-    requires forall|k: u64| #[trigger] replacements@.contains_key(k) ==> replacements@[k].function is Some,
+    //   ... and on Quadratic operands whose COO arrays differ in length (precondition under which C02 proves the operator contracts)
+    requires forall|k: u64| #[trigger] replacements@.contains_key(k) ==> replacements@[k].function is Some && fn_coo_ok(replacements@[k]),
+        fn_coo_ok(*self),
     // for an empty map the function itself; otherwise the expression  sum_t ( c_t * prod_j factor_{t,j} )  built with the Function operators, where each
     // factor is the replacement of the j-th id of term t, or a function whose value is that variable; lemma_substitute_value evaluates it
     ensures r is Ok, subst_post(*self, replacements@, r->Ok_0),''',
@@ -125,14 +140,14 @@ pub fn substitute(&self, replacements: &HashMap<u64, Self>) -> (r: Result<Self, 
                 loops=[dict(kind='for', it='it_1', rebind='(__e.0.vclone(), __e.1)',
                             body_proof=' proof { assert(*__e == __h1[it_1.index@ as int]); fs = Seq::empty(); }',
                             inv='''invariant
-                __h1@ == fn_terms(*self), out.function is Some,
+                __h1@ == fn_terms(*self), out.function is Some, fn_coo_ok(out),
                 fss.len() == it_1.index@, all_factors_ok(__h1@, fss, replacements@, it_1.index@ as int),
                 out == sub_acc(__h1@, fss, it_1.index@ as int), acc_steps_ok(__h1@, fss, it_1.index@ as int),'''),
                        dict(kind='for', it='it_2', rebind='__e',
                             body_proof=' proof { assert(*__e == __h2[it_2.index@ as int]); } let ghost v0 = v;',
                             inv='''invariant
                     __h2@ == ids@, ids@ == __h1@[it_1.index@ as int].0@, coefficient == __h1@[it_1.index@ as int].1, 0 <= it_1.index@ < __h1.len(),
-                    v.function is Some, fs.len() == it_2.index@, factors_ok(ids@, fs, replacements@, it_2.index@ as int),
+                    v.function is Some, fn_coo_ok(v), fn_coo_ok(out), fs.len() == it_2.index@, factors_ok(ids@, fs, replacements@, it_2.index@ as int),
                     v == sub_term(coefficient, fs, it_2.index@ as int), term_steps_ok(coefficient, fs, it_2.index@ as int),
                     fss.len() == it_1.index@, all_factors_ok(__h1@, fss, replacements@, it_1.index@ as int),
                     out == sub_acc(__h1@, fss, it_1.index@ as int), acc_steps_ok(__h1@, fss, it_1.index@ as int), out.function is Some,''')],
